@@ -149,8 +149,8 @@ func refConn(calls []callKind) (frames []interface{}, log []string) {
 						emit(map[string]interface{}{"continues": true, "parameters": map[string]interface{}{"c": float64(n)}})
 					}
 				}
-			case 'T':
-				log = append(log, "T")
+			case 'T', 'I', 'J':
+				log = append(log, string(a))
 				ended = true
 			case 'X':
 				log = append(log, "X")
@@ -319,7 +319,7 @@ func jsonEqual(a, b interface{}) bool {
 }
 
 var c01Flags = []string{"", "oneway", "more", "upgrade", "more+oneway"}
-var c01Scripts = []string{"R", "CR", "CCR", "E", "NR", "OR", "Z", "X", "RX", "CX", "KE", "KM", "KNE", "PR", "QR", "DR", "TR"}
+var c01Scripts = []string{"R", "CR", "CCR", "E", "NR", "OR", "Z", "X", "RX", "CX", "KE", "KM", "KNE", "PR", "QR", "DR", "TR", "IR", "JR"}
 
 func c01Kinds() []callKind {
 	var ks []callKind
@@ -347,6 +347,15 @@ func scenariosC01(tier string) []Scen {
 		out = append(out, Scen{Desc: d, Bound: bound, Body: c01Body(d), Check: c01Check(d), Obs: c01Obs})
 	}
 	kinds := c01Kinds()
+	// the remaining three flag combinations (oneway+upgrade, more+upgrade, all three) with a subset of the kinds:
+	// alone, and paired with three plain partners in both orders
+	var extra []callKind
+	for _, f := range []string{"oneway+upgrade", "more+upgrade", "more+oneway+upgrade"} {
+		for _, m := range []string{"t.a.R", "t.a.CR", "t.a.E", "t.a.X", "u.x.M", "M", "org.varlink.service.GetInfo", "org.varlink.service.Nope"} {
+			extra = append(extra, callKind{Method: m, Flags: f})
+		}
+		extra = append(extra, callKind{Method: "org.varlink.service.GetInterfaceDescription", Flags: f, P: `{"interface":"t.a"}`})
+	}
 	// (a) one connection: all call sequences of length <= 2; whole stream in one write with schedule
 	// deviations, and every 1-cut segmentation (every byte offset) plus one byte per write.
 	var seqs [][]callKind
@@ -356,6 +365,12 @@ func scenariosC01(tier string) []Scen {
 	for _, a := range kinds {
 		for _, b := range kinds {
 			seqs = append(seqs, []callKind{a, b})
+		}
+	}
+	for _, a := range extra {
+		seqs = append(seqs, []callKind{a})
+		for _, p := range []callKind{{Method: "t.a.R"}, {Method: "t.a.R", Flags: "oneway"}, {Method: "org.varlink.service.GetInfo"}} {
+			seqs = append(seqs, []callKind{a, p}, []callKind{p, a})
 		}
 	}
 	if tier != "quick" {
